@@ -260,6 +260,11 @@ for mode in ('822', '5321', '5322'):
                 defines=['-DEMAIL_MODE=' + mode, '-DPATH_' + path, '-DHAVE_LIBIDN2', '-DEAV_EXTRA'], timeout=1200, reach=4,
                 expect=['postcondition', 'assigns'], functions=['is_%s_email (EAV_EXTRA build)' % mode],
                 files=['src/is_%s_email.c' % mode, 'include/eav/private_email.h'], assumptions=[A1, A2, A3, A6, A9]))
+for path in ('HOST', 'LITERAL'):
+    add(Job('email_6531_%s+extra' % path.lower(), 'harness/email_6531.c', enforce='is_6531_email', replace_candidates=EMAIL_CALLEES,
+            defines=['-DPATH_' + path, '-DEAV_EXTRA'] + BACKENDS['idn2'], timeout=1200, reach=4, backend='idn2',
+            expect=['postcondition', 'assigns'], functions=['is_6531_email (EAV_EXTRA build)'],
+            files=['partial/idn2/is_6531_email.c', 'include/eav/private_email.h'], assumptions=[A1, A2, A3, A6, A9]))
 for fn in ('eav_result_free', 'eav_free', 'eav_is_email'):
     add(Job(fn + '+extra', 'harness/eav_is_email.c' if fn == 'eav_is_email' else 'harness/eav_api.c', enforce=fn,
             replace=(CBS if fn == 'eav_is_email' else []), defines=['-DHAVE_LIBIDN2', '-DEAV_EXTRA'] + ([] if fn == 'eav_is_email' else ['-DJOB_' + fn]),
